@@ -24,7 +24,7 @@ from pathlib import Path
 from .. import common
 
 PROP = "C15"
-MODULES = ["XpmVerif.Properties.C15"]
+MODULES = ["XpmVerif.Properties.C15", "XpmVerif.Properties.C15Mro"]
 BASE = 1000  # class id of `Config` itself (every configuration is an instance)
 
 # ---------------------------------------------------------------------------
@@ -1149,6 +1149,8 @@ def flush(ctx):
                 ctx.disagree(line, m, i, "declarable: model and implementation differ")
         elif kind == "history":
             compare_history(ctx, line, m, i, meta)
+        elif kind == "lib":
+            compare_lib(ctx, line, m, i, meta)
         else:
             compare_graph(ctx, line, m, i, meta)
 
@@ -1208,19 +1210,64 @@ def gen_lib(rng, hist=False):
     hist: for histories of submissions — more task classes, and tasks may be parameter values of later classes"""
     n = rng.choice([6, 7, 8] if hist else [5, 6, 7, 8])
     ntask = rng.choice([3, 4]) if hist else 2
+    # multiple inheritance (diamonds, two unrelated parents) with re-declared parameters: in about half of the libraries,
+    # which then get two more configuration classes
+    mi = rng.random() < 0.6
+    if mi:
+        n += 3
     classes = []
     for i in range(n):
         base = "Task" if i >= n - ntask else ("LightweightTask" if i == 1 else "Config")
         parent = None
+        parents = []
         same = [j for j, c in enumerate(classes) if c["base"] == base and base == "Config"]
-        if same and rng.random() < 0.2:
+        if same and rng.random() < (0.75 if mi else 0.2):
             parent = rng.choice(same)
+            parents = [parent]
+            if mi and len(same) >= 2 and rng.random() < 0.85:
+                # a second base: preferably one that shares an ancestor with the first (a diamond)
+                others = [j for j in same if j != parent and j not in classes[parent]["mro"] and parent not in classes[j]["mro"]]
+                dia = [j for j in others if set(classes[j]["mro"]) & set(classes[parent]["mro"]) - {BASE}]
+                pick = dia if dia and rng.random() < 0.7 else others
+                if pick:
+                    parents = [parent, rng.choice(pick)]
+                    if rng.random() < 0.5:
+                        parents.reverse()
+                    parent = parents[0]
         cfgs = [j for j, c in enumerate(classes) if c["base"] == "Config"]
         if hist:
             tk = [j for j, c in enumerate(classes) if c["base"] == "Task"]
             cfgs = cfgs + tk + tk  # tasks as parameter values, favoured
-        args = list(classes[parent]["args"]) if parent is not None else []
-        used = {a["name"] for a in args}
+        own = []
+        if parents:
+            # re-declarations of inherited parameters: another scalar type, Optional added/removed, default added/removed
+            inherited = lib_table(classes, c3_mro(None, parents, classes) or list(classes[parent]["mro"]), None)
+            for x, _, d in inherited:
+                inner = d["ty"]["t"] if d["ty"]["k"] == "opt" else d["ty"]
+                if d["generator"] or d["constant"] or inner["k"] not in ("int", "float", "str", "bool") or rng.random() >= (0.4 if mi else 0.0):
+                    continue
+                nd_ = {"name": x, "ty": inner, "meta": d["meta"], "default": None, "generator": False, "constant": False, "dkey": f"{x}@{i}"}
+                how = rng.choice(["type", "type", "opt", "default"])
+                # `ArgumentOptions.create` takes `getattr(cls, name, None)` as the default: a default declared by any ancestor is
+                # inherited as a class attribute, so a re-declaration below it always brings its own
+                inh_default = any(a["name"] == x and a["default"] is not None for q in classes for a in q["own"])
+                if inh_default:
+                    if how == "type":
+                        nd_["ty"] = T(rng.choice([k for k in ("int", "float", "str", "bool") if k != inner["k"]]))
+                    nd_["default"] = "conforming"
+                    own.append(nd_)
+                    continue
+                if how == "type":
+                    nd_["ty"] = T(rng.choice([k for k in ("int", "float", "str", "bool") if k != inner["k"]]))
+                    if d["ty"]["k"] == "opt" and rng.random() < 0.5:
+                        nd_["ty"] = T("opt", t=nd_["ty"])
+                elif how == "opt":
+                    if d["ty"]["k"] != "opt":
+                        nd_["ty"] = T("opt", t=inner)
+                elif d["default"] is None and d["ty"]["k"] != "opt":
+                    nd_["default"] = "conforming"
+                own.append(nd_)
+        args = []
         for a in range(rng.choice([2, 3, 4] if base == "Task" else [1, 2, 2, 3, 4])):
             name = f"a{i}_{a}"
             r = rng.random()
@@ -1257,17 +1304,83 @@ def gen_lib(rng, hist=False):
             elif f < 0.43 and not has_cfg:
                 arg.update(default="conforming", constant=True)
             args.append(arg)
+        own = own + args
         if hist and base == "Task" and rng.random() < 0.75:
             # a required parameter that the identifier ignores (Param[Path], Meta[...]): a missing one is not
             # caught by an accidental KeyError of the hash computation
             kind = rng.choice(["path", "meta-int", "meta-str"])
-            args.append({"name": f"a{i}_ign", "ty": T("path") if kind == "path" else T(kind[5:]), "meta": kind != "path",
-                         "default": None, "generator": False, "constant": False})
-        mro = [i] + (classes[parent]["mro"] if parent is not None else [BASE])
-        classes.append({"name": f"G{i}", "base": base, "parent": parent, "args": args, "mro": mro, "own": [a for a in args if a["name"] not in used],
-                        # the older public way of declaring parameters: class decorators @param / @option / @pathoption / @constant
-                        "deco": rng.random() < 0.3})
+            own.append({"name": f"a{i}_ign", "ty": T("path") if kind == "path" else T(kind[5:]), "meta": kind != "path",
+                        "default": None, "generator": False, "constant": False})
+        mro = c3_mro(i, parents, classes)
+        if mro is None:   # no consistent linearisation (Python refuses such a class statement): keep the first base only
+            parents = parents[:1]
+            mro = c3_mro(i, parents, classes)
+        cl = {"name": f"G{i}", "base": base, "parent": parent, "parents": parents, "mro": mro, "own": own}
+        if len(parents) > 1 and lib_owners(classes + [cl], i, "dfs") != lib_owners(classes + [cl], i, "mro"):
+            # the nested ChainMaps of the source (depth-first) and Python's MRO resolve some name differently (finding C15-N5):
+            # outside the domain of the generated graphs; such hierarchies are exercised by the table cases and the witness
+            cl["parents"] = parents = parents[:1]
+            cl["mro"] = c3_mro(i, parents, classes)
+        cl["args"] = [d for _, _, d in lib_table(classes + [cl], cl["mro"], None)]
+        # the older public way of declaring parameters: class decorators @param / @option / @pathoption / @constant
+        cl["deco"] = rng.random() < 0.3 and len(parents) <= 1 and not any("dkey" in a for a in own)
+        classes.append(cl)
     return classes
+
+
+def c3_mro(i, parents, classes):
+    """Python's C3 linearisation over class indices (`Config` itself = BASE last); i = None: the merge of the parents only"""
+    seqs = [[x for x in classes[p]["mro"] if x != BASE] for p in parents] + [list(parents)]
+    res = []
+    while any(seqs):
+        for sq in seqs:
+            if sq and not any(sq[0] in t[1:] for t in seqs):
+                h = sq[0]
+                break
+        else:
+            return None
+        res.append(h)
+        for t in seqs:
+            if t and t[0] == h:
+                del t[0]
+    return ([] if i is None else [i]) + res + [BASE]
+
+
+def cls_parents(c):
+    return c["parents"] if "parents" in c else ([c["parent"]] if c.get("parent") is not None else [])
+
+
+def lin_dfs(classes, i):
+    """the order in which a lookup in the nested ChainMaps of ObjectType.__initialize__ meets the classes"""
+    return [i] + [x for p in cls_parents(classes[i]) for x in lin_dfs(classes, p)]
+
+
+def lib_table(classes, lin, _):
+    """mirror of Model/ValidateMro.lean `argTable`: [(name, declaring class, declaration)], names at the place of their first
+    declaration walking the linearisation backwards, declaration = the first one along the linearisation"""
+    lin = [c for c in lin if c != BASE]
+    names = []
+    for c in reversed(lin):
+        for a in classes[c]["own"]:
+            if a["name"] not in names:
+                names.append(a["name"])
+    out = []
+    for x in names:
+        for c in lin:
+            d = [a for a in classes[c]["own"] if a["name"] == x]
+            if d:
+                out.append((x, c, d[0]))
+                break
+    return out
+
+
+def lib_owners(classes, i, lin):
+    L = lin_dfs(classes, i) if lin == "dfs" else classes[i]["mro"]
+    return sorted((x, c) for x, c, _ in lib_table(classes, L, None))
+
+
+def dkey(a):
+    return a.get("dkey", a["name"])
 
 
 def render_lib(P, tag, classes, defaults):
@@ -1276,7 +1389,7 @@ def render_lib(P, tag, classes, defaults):
     body = ["import json as _json", "from xv.props import c15 as _H", f"import {P.name}.lib as _L",
             "_W = _H.World({0: _L.E0, 1: _L.E1}, {}, {})"]
     for i, c in enumerate(classes):
-        par = classes[c["parent"]]["name"] if c["parent"] is not None else c["base"]
+        par = ", ".join(classes[q]["name"] for q in cls_parents(c)) or c["base"]
         if c.get("deco"):
             body.append("\n")
             for a in reversed(c["own"]):   # decorators apply bottom-up: the declaration order stays the one of `own`
@@ -1284,7 +1397,7 @@ def render_lib(P, tag, classes, defaults):
                 ann = render_ty(inner, names)
                 extra = ", required=False" if a["ty"]["k"] == "opt" else ""
                 if a["default"] is not None:
-                    dv = f"_H.build(_json.loads({json.dumps(json.dumps(defaults[a['name']]))}), _W)"
+                    dv = f"_H.build(_json.loads({json.dumps(json.dumps(defaults[dkey(a)]))}), _W)"
                 if a["generator"]:
                     body.append(f"@pathoption(\"{a['name']}\", \"{a['name']}.txt\")")
                 elif a["constant"]:
@@ -1306,7 +1419,7 @@ def render_lib(P, tag, classes, defaults):
             hint = "Constant" if a["constant"] else ("Meta" if a["meta"] else "Param")
             d = ""
             if a["default"] is not None:
-                d = f" = _H.build(_json.loads({json.dumps(json.dumps(defaults[a['name']]))}), _W)"
+                d = f" = _H.build(_json.loads({json.dumps(json.dumps(defaults[dkey(a)]))}), _W)"
             body.append(f"    {a['name']}: {hint}[{ann}]{d}")
         if not c["own"]:
             body.append("    pass")
@@ -1550,7 +1663,7 @@ def make_lib(ctx, rng, classes=None, defaults=None):
     classes = classes or gen_lib(rng)
     if defaults is None:
         vg = ValGen(rng, {}, lambda c: NONE, safe=True)
-        defaults = {a["name"]: vg.conforming(a["ty"]) for c in classes for a in c["own"] if a["default"] is not None}
+        defaults = {dkey(a): vg.conforming(a["ty"]) for c in classes for a in c["own"] if a["default"] is not None}
     tag = f"lib{P.n + 1}"
     _, M = P.module(render_lib(P, tag, classes, defaults))
     W, mros = lib_world(P, M, classes)
@@ -1563,7 +1676,7 @@ def classes_py(W):
 
 def run_graph_case(ctx, classes, defaults, W, mros, g, lines, impls, metas, with_submit=True, force_resubmit=None):
     impl = probe_impl(ctx)
-    case = {"op": "graph", "classes": [{k: c[k] for k in ("name", "base", "parent", "args", "mro")} for c in classes], "defaults": defaults,
+    case = {"op": "graph", "classes": [{k: c[k] for k in ("name", "base", "parent", "parents", "own", "args", "mro") if k in c} for c in classes], "defaults": defaults,
             "nodes": g["nodes"], "root": g["root"], "removed": g.get("removed", [])}
     reach_deep = reachable(g, classes, True)
     reach_top = reachable(g, classes, False)
@@ -1681,12 +1794,174 @@ def compare_graph(ctx, line, m, i, meta):
 def run_graphs(ctx, rng, nlibs, per_lib, with_model=True):
     for _ in range(nlibs):
         classes, defaults, W, mros = make_lib(ctx, rng)
+        check_tables(ctx, classes, defaults, W, with_model=with_model)
         lines, impls, metas = [], [], []
         for _ in range(per_lib):
             g = gen_graph(rng, classes, mros, complete=rng.random() < 0.2)
             run_graph_case(ctx, classes, defaults, W, mros, g, lines, impls, metas)
         if with_model:
             compare_graphs(ctx, lines, impls, metas)
+
+
+
+# ---------------------------------------------------------------------------
+# argument tables under (multiple) inheritance: Model/ValidateMro.lean
+
+
+def real_tables(classes, W):
+    """per class {name: (index of the class whose declaration `xpmtype.arguments[name]` is, required)} read off the real code,
+    and the real `__mro__` as class indices"""
+    xt = {i: W.classes[i].__getxpmtype__() for i in range(len(classes))}
+    idx = {W.classes[i]: i for i in range(len(classes))}
+    tabs, mros = [], []
+    for i in range(len(classes)):
+        t = {}
+        for name, arg in xt[i].arguments.items():
+            owner = [j for j in xt if xt[j] is getattr(arg, "objecttype", None)]
+            t[name] = (owner[0] if owner else -1, bool(arg.required))
+        tabs.append(t)
+        mros.append([idx[k] for k in W.classes[i].__mro__ if k in idx] + [BASE])
+    return tabs, mros
+
+
+def lib_line(impl, classes, lin):
+    return {"op": "lib", "impl": impl, "lin": lin,
+            "classes": [{"bases": cls_parents(c), "mro": [x for x in c["mro"] if x != BASE],
+                         "own": [{"name": a["name"], "ty": a["ty"], "default": a["default"] is not None, "generator": a["generator"],
+                                  "constant": a["constant"]} for a in c["own"]]} for c in classes]}
+
+
+_LIN = {}
+
+
+def probe_lin(ctx):
+    """which linearisation the argument table of the tree under test follows (`Lin` of Model/ValidateMro.lean): read off the
+    witness hierarchy of C15-N5, where the two differ"""
+    if "lin" not in _LIN:
+        classes, defaults, W, mros = make_lib(ctx, None, json.loads(json.dumps(N5_CLASSES)), {})
+        tabs, _ = real_tables(classes, W)
+        _LIN["lin"] = "mro" if tabs[3].get("count", (None,))[0] == 2 else "dfs"
+        ctx.extra_cov["argument_table_linearisation_probed"] = _LIN["lin"]
+    return _LIN["lin"]
+
+
+def check_tables(ctx, classes, defaults, W, source="generated", with_model=True):
+    """the argument table of every class of a library: model (`argTable` along the probed linearisation) vs the real
+    `xpmtype.arguments`; monitor (implementation only): the declaration in force for a name is the one of the first class of
+    Python's MRO that declares it — when it is not, assignments that the MRO-first declaration forbids are tried for real"""
+    impl = probe_impl(ctx)
+    lin = probe_lin(ctx)
+    tabs, rmros = real_tables(classes, W)
+    case = {"op": "lib", "classes": [{k: c[k] for k in ("name", "base", "parent", "parents", "own", "args", "mro") if k in c} for c in classes],
+            "defaults": defaults}
+    for i, c in enumerate(classes):
+        if rmros[i] != c["mro"]:
+            raise RuntimeError(f"harness: C3 linearisation {c['mro']} differs from Python's {rmros[i]} for {c['name']}")
+    multi = any(len(cls_parents(c)) > 1 for c in classes)
+    redecl = sum(1 for c in classes for a in c["own"] if any(a["name"] == x for p in cls_parents(c) for x, _, _ in lib_table(classes, classes[p]["mro"], None)))
+    ctx.count("lib_shape", ("multiple-inheritance" if multi else "single-inheritance") + ("+redeclared" if redecl else ""))
+    mlist = [len(cls_parents(c)) > 1 for c in classes]
+    ctx.count("classes_with_several_bases", sum(mlist))
+    mros = {i: c["mro"] for i, c in enumerate(classes)}
+    for i, c in enumerate(classes):
+        declared = {x: (o, d) for x, o, d in lib_table(classes, c["mro"], None)}
+        dfs = dict(lib_owners(classes, i, "dfs"))
+        for x, (o_d, d) in sorted(declared.items()):
+            o_r, req_r = tabs[i].get(x, (-1, None))
+            if o_r == o_d:
+                continue
+            which = "depth-first" if o_r == dfs.get(x) else "other-order"
+            ctx.count("table_owner_differs_from_mro", which)
+            inner = d["ty"]["t"] if d["ty"]["k"] == "opt" else d["ty"]
+            for vd in (D_float(1.5), D_int(3), D_str("x"), {"k": "bool", "b": True}, NONE):
+                w = W.fresh()
+                try:
+                    o = W.classes[i](**{x: build(vd, w)})
+                    stored = canon(o.__xpm__.values.get(x), w)
+                except Exception:
+                    continue
+                sub = dict(case, cls=i, name=x, v=vd, declared_by=classes[o_d]["name"], table_uses=classes[o_r]["name"] if o_r >= 0 else None)
+                if stored["k"] == "none":
+                    if vd["k"] == "none" and required(d) and not d["generator"]:
+                        ctx.monitor_fail(f"inherited-declaration:{which}",
+                                         f"{c['name']}.{x} is declared required by {classes[o_d]['name']} (first in the MRO of {c['name']}); "
+                                         f"assigning None is accepted (the argument table uses the declaration of {sub['table_uses']})", sub)
+                elif not member(inner, stored, mros):
+                    ctx.monitor_fail(f"inherited-declaration:{which}",
+                                     f"{c['name']}.{x} is declared {render_ty(d['ty'], {j: k['name'] for j, k in enumerate(classes)})} by "
+                                     f"{classes[o_d]['name']} (first in the MRO of {c['name']}); {vd} is stored as {stored} "
+                                     f"(the argument table uses the declaration of {sub['table_uses']})", sub)
+    ctx.case(case, multi or redecl > 0)
+    if with_model:
+        impl_out = {"tables": [sorted([x, o, r] for x, (o, r) in t.items()) for t in tabs]}
+        _QUEUE.append(("lib", lib_line(impl, classes, lin), impl_out, {"case": case}))
+
+
+def compare_lib(ctx, line, m, i, meta):
+    mm = {"tables": [sorted(t) for t in m.get("tables", [])]}
+    if mm != i:
+        bad = [k for k, (a, b) in enumerate(zip(mm["tables"], i["tables"])) if a != b]
+        ctx.disagree(meta["case"], {k: mm["tables"][k] for k in bad[:3]}, {k: i["tables"][k] for k in bad[:3]},
+                     f"argument table (name, declaring class, required) along the {line['lin']} linearisation: model and xpmtype.arguments differ")
+
+
+def gen_table_lib(rng):
+    """small hierarchies of configuration classes with scalar parameters, many re-declarations, any shape of multiple
+    inheritance (also those on which depth-first and MRO disagree: known finding C15-N5)"""
+    n = rng.choice([4, 5, 6])
+    classes = []
+    for i in range(n):
+        cand = list(range(i))
+        parents = []
+        if cand and rng.random() < 0.8:
+            parents = rng.sample(cand, min(len(cand), rng.choice([1, 1, 2, 2, 3])))
+            parents = [q for q in parents if not any(q != r and q in classes[r]["mro"] for r in parents)]
+        mro = c3_mro(i, parents, classes)
+        while mro is None:
+            parents = parents[:-1]
+            mro = c3_mro(i, parents, classes)
+        own = []
+        names = [f"p{k}" for k in range(4)]
+        for x in rng.sample(names, rng.choice([0, 1, 1, 2])):
+            ty = T(rng.choice(["int", "float", "str", "bool"]))
+            a = {"name": x, "ty": ty, "meta": False, "default": None, "generator": False, "constant": False, "dkey": f"{x}@{i}"}
+            f = rng.random()
+            if any(b["name"] == x and b["default"] is not None for q in classes for b in q["own"]):
+                a["default"] = "conforming"   # see gen_lib: a default declared above is inherited as a class attribute
+            elif f < 0.3:
+                a["ty"] = T("opt", t=ty)
+            elif f < 0.5:
+                a["default"] = "conforming"
+            own.append(a)
+        cl = {"name": f"G{i}", "base": "Config", "parent": parents[0] if parents else None, "parents": parents, "mro": mro, "own": own, "deco": False}
+        cl["args"] = [d for _, _, d in lib_table(classes + [cl], mro, None)]
+        classes.append(cl)
+    return classes
+
+
+def run_table_cases(ctx, rng, n, with_model=True):
+    for _ in range(n):
+        classes, defaults, W, mros = make_lib(ctx, rng, gen_table_lib(rng))
+        check_tables(ctx, classes, defaults, W, with_model=with_model)
+
+
+def _n5_arg(name, ty, cls):
+    return {"name": name, "ty": ty, "meta": False, "default": None, "generator": False, "constant": False, "dkey": f"{name}@{cls}"}
+
+
+# C15-N5: Base(count: float, seed: Optional[int]); Fixed(Base) inherits; Logged(Base) re-declares count: str, seed: int;
+# C(Fixed, Logged) — Python's MRO is C, Fixed, Logged, Base; the nested ChainMaps reach Base through Fixed first
+N5_CLASSES = [
+    {"name": "G0", "base": "Config", "parent": None, "parents": [], "mro": [0, BASE], "deco": False,
+     "own": [_n5_arg("count", T("float"), 0), _n5_arg("seed", T("opt", t=T("int")), 0)]},
+    {"name": "G1", "base": "Config", "parent": 0, "parents": [0], "mro": [1, 0, BASE], "deco": False, "own": []},
+    {"name": "G2", "base": "Config", "parent": 0, "parents": [0], "mro": [2, 0, BASE], "deco": False,
+     "own": [_n5_arg("count", T("str"), 2), _n5_arg("seed", T("int"), 2)]},
+    {"name": "G3", "base": "Config", "parent": 1, "parents": [1, 2], "mro": [3, 1, 2, 0, BASE], "deco": False, "own": []},
+]
+for _c in N5_CLASSES:
+    _c["args"] = [d for _, _, d in lib_table(N5_CLASSES, _c["mro"], None)]
+N5_CASE = {"kind": "lib", "classes": N5_CLASSES, "defaults": {}}
 
 
 # ---------------------------------------------------------------------------
@@ -1790,7 +2065,7 @@ def run_history_case(ctx, classes, defaults, W, mros, h, lines, impls, metas):
     at every submit of the history"""
     from experimaestro import experiment
     impl = probe_impl(ctx)
-    case = {"op": "history", "classes": [{k: c[k] for k in ("name", "base", "parent", "args", "mro")} for c in classes], "defaults": defaults,
+    case = {"op": "history", "classes": [{k: c[k] for k in ("name", "base", "parent", "parents", "own", "args", "mro") if k in c} for c in classes], "defaults": defaults,
             "nodes": h["nodes"], "ops": h["ops"], "removed": h.get("removed", []), "root": h.get("root", 0)}
     w = W.fresh()
     nodes = h["nodes"]
@@ -1911,6 +2186,7 @@ def compare_history(ctx, line, m, steps, meta):
 def run_histories(ctx, rng, nlibs, per_lib, with_model=True):
     for _ in range(nlibs):
         classes, defaults, W, mros = make_lib(ctx, rng, gen_lib(rng, hist=True))
+        check_tables(ctx, classes, defaults, W, with_model=with_model)
         lines, impls, metas = [], [], []
         for _ in range(per_lib):
             h = gen_history(rng, classes, mros, complete=rng.random() < 0.25)
@@ -1975,7 +2251,7 @@ def skipjob_case(kind="path", position="direct"):
             "removed": [[1, 0, 1]], "root": 0}
 
 
-CORPUS = [F10_CASE, N1_CASE, N2_CASE, f11_case(True, "list"), f11_case(False, "list"), f11_case(True, "dict"), n3_case()] + \
+CORPUS = [N5_CASE, F10_CASE, N1_CASE, N2_CASE, f11_case(True, "list"), f11_case(False, "list"), f11_case(True, "dict"), n3_case()] + \
     [skipjob_case(k, pos) for k in ("path", "meta") for pos in ("direct", "list", "dict")]
 
 
@@ -1996,6 +2272,10 @@ def run_case_list(ctx, cases, with_model=True):
             run_history_case(ctx, classes, defaults, W, mros, c, lines, impls, metas)
             if with_model:
                 _QUEUE.extend(("history", l, i, m) for l, i, m in zip(lines, impls, metas))
+    for c in cases:
+        if c["kind"] == "lib":
+            classes, defaults, W, mros = make_lib(ctx, None, c["classes"], c.get("defaults", {}))
+            check_tables(ctx, classes, defaults, W, source="corpus", with_model=with_model)
     for c in cases:
         if c["kind"] != "graph":
             continue
@@ -2046,7 +2326,8 @@ def correspond(ctx):
         done += k
     run_decl_cases(ctx, rng, ctx.scale(40, 400))
     t1 = time.time()
-    nlibs, per = ctx.scale((14, 18), (110, 22))
+    run_table_cases(ctx, rng, ctx.scale(12, 250))
+    nlibs, per = ctx.scale((12, 17), (110, 22))
     run_graphs(ctx, rng, nlibs, per)
     t2 = time.time()
     nlibs, per = ctx.scale((8, 12), (60, 15))
@@ -2065,6 +2346,7 @@ def search(ctx):
     known = {f["key"] for f in common.load_findings(PROP) if f.get("status") == "known"}
     while time.time() - t0 < budget and not [m for m in ctx.monitor_failures if m["key"] not in known]:
         run_set_cases(ctx, gen_set_cases(ctx, rng, 150), with_model=False)
+        run_table_cases(ctx, rng, 10, with_model=False)
         run_graphs(ctx, rng, 3, 15, with_model=False)
         run_histories(ctx, rng, 3, 10, with_model=False)
 
@@ -2085,6 +2367,8 @@ def replay(ctx, obj):
         elif c.get("op") == "history":
             cases.append({"kind": "history", "classes": c["classes"], "defaults": c.get("defaults", {}), "nodes": c["nodes"], "ops": c["ops"],
                           "removed": c.get("removed", []), "root": c.get("root", 0)})
+        elif c.get("op") == "lib":
+            cases.append({"kind": "lib", "classes": c["classes"], "defaults": c.get("defaults", {})})
         elif c.get("op") == "graph":
             cases.append({"kind": "graph", "classes": c["classes"], "defaults": c.get("defaults", {}), "nodes": c["nodes"], "root": c["root"],
                           "removed": c.get("removed", []), "resubmit": c.get("resubmit", False)})
